@@ -41,6 +41,10 @@ def metric_messages(defs):
                 labels.append(LabelExpression(key=key, static=AnyValue(int_value=40 + j)))
             elif kd == 'static_bool':
                 labels.append(LabelExpression(key=key, static=AnyValue(bool_value=True)))
+            elif kd == 'static_zero':
+                labels.append(LabelExpression(key=key, static=AnyValue(int_value=0)))
+            elif kd == 'static_false':
+                labels.append(LabelExpression(key=key, static=AnyValue(bool_value=False)))
             else:
                 labels.append(LabelExpression(key=key, expression=LABEL_EXPR[kd]))
         kw = dict(name='metric_%d' % i, type=MetricType.Value(d['type']), labelExpressions=labels)
@@ -87,6 +91,10 @@ def check_call(i, d, exp, call):
             bad.append('label %s = %r' % (key, got))
         elif lc == 'static_bool' and got not in (True, 'True'):
             bad.append('label %s = %r' % (key, got))
+        elif lc == 'static_zero' and (got not in (0, '0') or got is False or got is None):
+            bad.append('label %s = %r, the definition says 0' % (key, got))
+        elif lc == 'static_false' and (got not in (False, 'False') or got is None or got == 0 and got is not False and got != 'False'):
+            bad.append('label %s = %r, the definition says False' % (key, got))
         elif lc == 'expr_ok' and got != '42':
             bad.append('label %s = %r, expected the text of size * 3 = 42' % (key, got))
         elif lc == 'error_text' and (not isinstance(got, str) or got in ('', '42')):
